@@ -92,7 +92,7 @@ def tablets(run, fx):
     if len(ctor) != 1:
         raise AnalysisBroken('Face::Table(const Face&, Tag, uint32) not found')
     ctor = ctor[0]
-    gt = [e for _, e in ctor.elements() if e['k'] == 'CallExpr' and not e.get('fq') and 'get_table' in ctor.render(e)]
+    gt = [e for _, e in ctor.elements() if e['k'] == 'CallExpr' and not e.get('fq') and ('get_table' in ctor.render(e) or 'get_table' in ctor.render(e, resolve=True))]
     if not gt:
         raise AnalysisBroken('Face::Table ctor: get_table call not found')
     fail_edges = dom.edges_with(ctor, lambda f: 'CheckTable' in f[0] and f[1] == '==' and f[2] == '0')
@@ -132,7 +132,7 @@ def tablets(run, fx):
                      '%d other store(s) to _p in the constructor, none reachable from the get_table store without release()' % (len(pstores) - 1))
     # --- release()
     rl = fx.one(T + '::release')
-    rt = [e for _, e in rl.elements() if e['k'] == 'CallExpr' and not e.get('fq') and 'release_table' in rl.render(e)]
+    rt = [e for _, e in rl.elements() if e['k'] == 'CallExpr' and not e.get('fq') and ('release_table' in rl.render(e) or 'release_table' in rl.render(e, resolve=True))]
     fr = calls_in(rl, 'free')
     probs = []
     if len(rt) != 1:
@@ -242,7 +242,9 @@ def tablets(run, fx):
                      'release() then frees the application\'s borrowed table with free() instead of handing it back through release_table')
     elif flag and r:
         run.held('TABLETS', 'decompress releases with the old ownership flag', dc.loc(r[0]), 'release() precedes _compressed = true on every path')
-    if flag and dc.block_of[flag[0]['i']] == sb:
+    nonnull_stores = [e for e in stores if not dc.is_null(e['c'][1])] or stores
+    pdom = dc.postdominators()
+    if flag and all(any(dc.block_of[f_['i']] == dc.block_of[st_['i']] or dc.block_of[f_['i']] in pdom[dc.block_of[st_['i']]] for f_ in flag) for st_ in nonnull_stores):
         run.held('TABLETS', 'decompress marks ownership', dc.loc(flag[0]), '_compressed = true together with the new _p')
     else:
         run.violated('TABLETS', 'decompress marks ownership', dc.loc(stores[0]), 'the decompressed buffer is installed without _compressed = true: it would be '
